@@ -300,7 +300,7 @@ class Check:
         finally:
             shutil.rmtree(d, ignore_errors=True)
         text = out + err
-        blocks = re.findall(r"'([^']+)' (depends on axioms: \[([^\]]*)\]|does not depend on any axioms)", text)
+        blocks = re.findall(r"'(\S+)' (depends on axioms: \[([^\]]*)\]|does not depend on any axioms)", text)
         seen = {}
         for name, _, axs in blocks:
             seen[name] = [a.strip() for a in axs.replace("\n", " ").split(",") if a.strip()]
@@ -341,6 +341,11 @@ class Check:
         t = time.time()
         rec = {"suite": suite.name, "domain": suite.domain, "ops": len(suite.ops), "exhaustive": suite.exhaustive}
         rec.update(suite.stats)
+        kinds = {}
+        for op in suite.ops:
+            k = op.split(" ", 1)[0]
+            kinds[k] = kinds.get(k, 0) + 1
+        rec["op_kinds"] = kinds      # the input distribution actually generated
         self.suites_run.append(rec)
         ob = Obligation("correspondence", suite.name)
         self.obligations.append(ob)
